@@ -157,7 +157,14 @@ class SocketTransportSink(ClientMessageSink):
       except gevent.Timeout: # pylint: disable=E0712
         err = TimeoutError()
         self._socket.close()
-        self._socket.open()
+        # Not usable until the connection is re-established.
+        self._state = ChannelState.Busy
+        try:
+          self._socket.open()
+          self._state = ChannelState.Open
+        except Exception as ex:
+          # The connection could not be re-established, this sink is dead.
+          self._Fault(ex)
         self._processing = None
         sink_stack.AsyncProcessResponseMessage(MethodReturnMessage(error=err))
       except Exception as ex:
